@@ -204,14 +204,16 @@ def run_property(pid, tier):
         # a solver `unknown` under load is retried once with the machine to itself (few jobs at a time): `unknown` decides nothing,
         # and a verdict must not depend on how busy the 16 cores were while the first attempt ran
         flaky = [i for i, r in enumerate(shard_results)
-                 if not r.get("error") and any(o["verdict"] not in ("unsat", "sat", "known") for o in r.get("obligations", []))]
+                 if not r.get("error") and any(o["verdict"] not in ("unsat", "sat", "known") and o["kind"] not in ("control", "cover")
+                                               for o in r.get("obligations", []))]
         if flaky and not os.environ.get("VERIF_NO_RETRY"):
             jobs = [(shard_results[i]["qual"], thorough, shard_results[i]["shard"]) for i in flaky]
             with ctx.Pool(min(len(jobs), 4)) as pool:
                 again = pool.map(verify_one, jobs, chunksize=1)
             for i, r in zip(flaky, again):
-                n0 = sum(1 for o in shard_results[i].get("obligations", []) if o["verdict"] not in ("unsat", "sat", "known"))
-                n1 = sum(1 for o in r.get("obligations", []) if o["verdict"] not in ("unsat", "sat", "known")) if not r.get("error") else n0 + 1
+                und = lambda rr: sum(1 for o in rr.get("obligations", []) if o["verdict"] not in ("unsat", "sat", "known") and o["kind"] not in ("control", "cover"))
+                n0 = und(shard_results[i])
+                n1 = und(r) if not r.get("error") else n0 + 1
                 if n1 < n0:
                     r.setdefault("notes", []).append("retried once after solver unknown under load (%d -> %d undecided obligations)" % (n0, n1))
                     shard_results[i] = r
